@@ -151,7 +151,7 @@ def parseMapper (j : Json) : Except String Mapper := do
         if h : q.size = 3 then pure ((← q[0].getStr?), (← q[1].getStr?), (← strPairs q[2])) else throw "kidsX entry"
     | .error _ => pure []
   let um := rlookupD tags
-  pure { mp := lookupD (tags ++ attrs), um, umA := rlookupD attrs,
+  pure { mp := lookupD (tags ++ attrs), mpA := lookupD (attrs ++ tags), um, umA := rlookupD attrs,
          umX := fun x k => match kx.find? (fun e => e.2.1 == k && e.2.2 == x) with
            | some e => e.1
            | none => um k }
